@@ -326,6 +326,10 @@ func runC11(seed int64, tier string, sc *Script) map[string]any {
 				// an absolute target that starts with the working directory and is not normalised
 				es[i].target = sb.wd + "/" + strings.TrimPrefix(e.target, "ABSWD:")
 			}
+			if strings.HasPrefix(e.name, "ABSWD:") {
+				// an absolute entry name inside the working directory that is not normalised
+				es[i].name = sb.wd + "/" + strings.TrimPrefix(e.name, "ABSWD:")
+			}
 			if strings.HasPrefix(e.name, "ABS:") {
 				es[i].name = filepath.Join(sb.root, strings.TrimPrefix(e.name, "ABS:"))
 			}
@@ -441,6 +445,12 @@ func runC11(seed int64, tier string, sc *Script) map[string]any {
 	// sibling directory whose name extends the working directory's
 	runOne("sym-abs-dotdot", []tarEnt{{'s', "d/a", "ABSWD:d/../../../../outside/victim"}, {'r', "d/a", ""}}, "")
 	runOne("sym-abs-dotdot", []tarEnt{{'d', "d/s", ""}, {'s', "d/s/l1", "ABSWD:d/d/s/../../../../../../outside/victim"}, {'r', "d/s/l1", ""}}, "")
+	// absolute entry names that are lexically inside the unpack directory but whose ".."
+	// segments follow a symbolic link an earlier entry created (the link itself stays inside)
+	runOne("name-abs-dotdot", []tarEnt{{'d', "d1/d2", ""}, {'s', "d1/d2/l", "../.."}, {'r', "ABSWD:d/d1/d2/l/../../victim", ""}}, "")
+	runOne("name-abs-dotdot", []tarEnt{{'d', "d1/d2", ""}, {'s', "d1/d2/l", "../.."}, {'d', "ABSWD:d/d1/d2/l/../../planted", ""}}, "")
+	runOne("name-abs-dotdot", []tarEnt{{'r', "ABSWD:d/x/../y", ""}}, "")
+	runOne("name-abs-dotdot", []tarEnt{{'r', "ABSWD:d/../../victim", ""}}, "")
 	archiveTitle = "."
 	runOne("sym-sibling-prefix", []tarEnt{{'s', "l", "../wd-backup/victim"}, {'r', "l", ""}}, "")
 	runOne("sym-sibling-prefix", []tarEnt{{'d', "s", ""}, {'s', "s/l", "../../wd-backup/victim"}, {'r', "s/l", ""}}, "")
